@@ -133,13 +133,22 @@ def worker(args):
         # (rules on a table-based scale also from shortly before the end of their table, so that the stream runs into it)
         ends = {"SCALE=HIJRI.DIYANET": ("20221101T090000Z", "20221220"), "SCALE=HIJRI": ("20770901T120000Z", "20771110")}
         lim = [(r, d) for r in evgen.LIMIT_RULES
-               for d in (None, 0) + ends.get(([p for p in r.split(";") if p.startswith("SCALE=")] or [""])[0], ())][wid::nw]
+               for d in (None, 0) + ends.get(([p for p in r.split(";") if p.startswith("SCALE=")] or [""])[0], ())]
+        # wall-clock times that do not exist (clocks set forward), as DTSTART and as something a daily or hourly rule runs into
+        for zone, day, tm in (("Europe/Berlin", "20240331", "023000"), ("America/New_York", "20240310", "020000"), ("Europe/London", "20240331", "013000"),
+                              ("Australia/Lord_Howe", "20241006", "021500"), ("America/Santiago", "20240908", "000000"), ("Asia/Tehran", "20210322", "003000")):
+            for rule in ("FREQ=DAILY;COUNT=100", "FREQ=HOURLY;COUNT=100", "FREQ=MINUTELY;INTERVAL=15;COUNT=100", "FREQ=YEARLY"):
+                lim.append((rule, "TZID=%s:%sT%s" % (zone, day, tm)))
+                lim.append((rule, "TZID=%s:%sT%s" % (zone, "%s%02d%s" % (day[:4], int(day[4:6]) - 2, day[6:]), tm)))
+        lim = lim[wid::nw]
         for k in range(ncases + len(lim)):
             if k >= ncases:
                 rule, pick = lim[k - ncases]
                 ds = rng.choice(evgen.LIMIT_DTSTARTS) if pick is None else pick if pick else "20%02d%02d%02dT%02d%02d%02dZ" % (
                     rng.randint(0, 98), rng.randint(1, 12), rng.randint(1, 28), rng.randint(0, 23), rng.randint(0, 59), rng.randint(0, 59))
                 par = ";VALUE=DATE" if "T" not in ds else ""
+                if ds.startswith("TZID="):
+                    par, ds = ";" + ds.split(":", 1)[0], ds.split(":", 1)[1]
                 text = "BEGIN:VCALENDAR\nBEGIN:VEVENT\nUID:lim@verif\nSUMMARY:x\nDTSTART%s:%s\nRRULE:%s\nEND:VEVENT\nEND:VCALENDAR\n" % (par, ds, rule)
                 stratum = "limits"
             else:
